@@ -30,4 +30,43 @@ def validateUnused (pre : List (Key × Nat)) (file : Nat) (vars : List VarDef) (
     (order : List VarDef → List VarDef) : List (Key × Nat) :=
   sortDiagnostics (pre ++ unusedDiagnostics file vars used order)
 
+/-! ### the other iteration site: `validate_schema`'s built-in scalar bookkeeping (schema/validation.rs)
+
+`BuiltInScalars::record_type_ref` files every referenced built-in scalar under `used_and_defined` or
+`used_and_undefined` (two `HashSet`s) according to whether `schema.types` — not mutated meanwhile — has the name;
+afterwards unused built-in scalars are removed from `schema.types` (`retain`, order-preserving) and
+`for name in used_and_undefined` (HASH ORDER) inserts the missing definitions into the `IndexMap` (appended).
+Names are numbers; `builtins` are the five built-in scalar names. -/
+
+structure Scalars where
+  usedDefined : List Nat
+  usedUndefined : List Nat
+  deriving Repr, DecidableEq
+
+/-- a set insert; also `IndexMap::insert` of a key: appended when new, left in place otherwise -/
+def insertSet (x : Nat) (l : List Nat) : List Nat := if l.contains x then l else l ++ [x]
+
+def recordRefs (builtins types : List Nat) : List Nat → Scalars → Scalars
+  | [], s => s
+  | r :: rest, s =>
+    recordRefs builtins types rest
+      (if builtins.contains r then
+        (if types.contains r then { s with usedDefined := insertSet r s.usedDefined }
+         else { s with usedUndefined := insertSet r s.usedUndefined })
+       else s)
+
+/-- `if !all_used() { types.retain(…) }` -/
+def pruneUnused (builtins types : List Nat) (s : Scalars) : List Nat :=
+  if s.usedDefined.length + s.usedUndefined.length == builtins.length then types
+  else types.filter fun t => !builtins.contains t || s.usedDefined.contains t
+
+def restoreAll (types : List Nat) : List Nat → List Nat
+  | [] => types
+  | n :: rest => restoreAll (insertSet n types) rest
+
+/-- the keys of `schema.types` after `validate_schema`; `order` = the iteration order of the `HashSet` -/
+def finalTypes (builtins types refs : List Nat) (order : List Nat → List Nat) : List Nat :=
+  let s := recordRefs builtins types refs ⟨[], []⟩
+  restoreAll (pruneUnused builtins types s) (order s.usedUndefined)
+
 end Apollo.Det
